@@ -5,7 +5,6 @@ from __future__ import annotations
 import time
 from collections.abc import Callable, Generator
 from contextlib import contextmanager
-from functools import cache
 from typing import Any
 
 from ..config import ParserConfig
@@ -34,7 +33,6 @@ type RuleOutcome = RuleResult | ParseException
 type MemoCache = dict[MemoKey, RuleOutcome]
 
 
-@cache
 def find_cached_semantic_action(semantics: Any, name: str) -> Callable[..., Any] | None:
     if not semantics:
         return None
@@ -94,6 +92,7 @@ class ParserCore(Ctx):
             int(max(1.0, self.config.perlinememos) * self.cursor.linecount)
         )
         self._results: MemoCache = {}
+        self._actions: dict[str, Callable[..., Any] | None] = {}
         self.states = ParseStateStack(cursor=self.input.newcursor())
 
     def _reset(self) -> None:
@@ -244,7 +243,14 @@ class ParserCore(Ctx):
         raise NotImplementedError
 
     def find_semantic_action(self, name: str) -> Callable[..., Any] | None:
-        return find_cached_semantic_action(self.semantics, name)
+        # cached per parse and per parser: a cache keyed by the semantics object needs it
+        # to be hashable and confuses objects that compare equal
+        try:
+            return self._actions[name]
+        except KeyError:
+            action = find_cached_semantic_action(self.semantics, name)
+            self._actions[name] = action
+            return action
 
     def newexcept(
         self,
